@@ -190,6 +190,17 @@ class Prop(object):
         pass
 
 
+def work_counter():
+    """Number of rtamt function bodies (visitX / update / reset / ... of the semantics, pastifier and explanation
+    packages) entered so far, as counted by the runner's sys.monitoring telemetry; None when telemetry is off.
+    A *logical* measure of work: verdicts about progress are stated in it, never in wall-clock time."""
+    import sys
+    t = getattr(sys.modules.get('__main__'), '_TELE', None)
+    if not t:
+        return None
+    return sum(t.values())
+
+
 def fmt(vals, lim=12):
     out = []
     for v in vals[:lim]:
